@@ -12,6 +12,7 @@ import (
 	"strings"
 	"testing"
 
+	"github.com/titpetric/vuego"
 	"pgregory.net/rapid"
 
 	"verif/internal/cat"
@@ -27,7 +28,7 @@ const prop = "C12"
 type Case struct {
 	Prog       string `json:"prog"`
 	Entry      string `json:"entry"`
-	Mode       string `json:"mode"` // "ref" | "failat" | "cancel"
+	Mode       string `json:"mode"` // "ref" | "failat" | "cancel" | "failnth" | "refuse" | "cancelmid"
 	K          int    `json:"k,omitempty"`
 	InjectFile string `json:"inject_file,omitempty"` // inject a failing expression into this file
 	InjectEnd  bool   `json:"inject_end,omitempty"`
@@ -147,6 +148,85 @@ func check(c Case) error {
 			return fmt.Errorf("%s/%s: render returned nil but writer got %d bytes, reference has %d", c.Prog, c.Entry, len(w.Got), ref.Len())
 		}
 		return nil
+	case "failnth", "refuse":
+		// a destination that fails once (the K-th write call) or refuses writes larger than K
+		// bytes, and works otherwise: the failure it reported must still surface
+		if p.Fails {
+			return nil
+		}
+		var ref bytes.Buffer
+		if err := p.Run(ctx, c.Entry, &ref); err != nil {
+			return fmt.Errorf("%s/%s: reference render failed: %v", c.Prog, c.Entry, err)
+		}
+		var failed bool
+		var err error
+		var got []byte
+		if c.Mode == "failnth" {
+			w := &fw.FailNth{N: c.K}
+			err = p.Run(ctx, c.Entry, w)
+			failed, got = w.Failed, w.Got
+		} else {
+			w := &fw.RefuseLarge{Max: c.K}
+			err = p.Run(ctx, c.Entry, w)
+			failed, got = w.Failed, w.Got
+		}
+		if failed && err == nil {
+			return fmt.Errorf("%s/%s: the destination writer reported a failure (%s, k=%d) but render returned nil; the writer holds %d of %d bytes", c.Prog, c.Entry, c.Mode, c.K, len(got), ref.Len())
+		}
+		if !failed {
+			if err != nil {
+				return fmt.Errorf("%s/%s: writer never failed but render returned %v", c.Prog, c.Entry, err)
+			}
+			if !bytes.Equal(got, ref.Bytes()) {
+				return fmt.Errorf("%s/%s: render returned nil but the writer got %d bytes, reference has %d", c.Prog, c.Entry, len(got), ref.Len())
+			}
+		}
+		return nil
+	case "cancelmid":
+		// the context is live at the call and cancelled DURING evaluation (by a template
+		// function): either nothing is written and an error is returned, or the complete
+		// document is written and nil is returned
+		if p.Fails {
+			return nil
+		}
+		cctx, cancel := context.WithCancel(ctx)
+		defer cancel()
+		q := p
+		q.Files = map[string]string{}
+		for k, v := range p.Files {
+			q.Files[k] = v
+		}
+		page := q.Files["page.vuego"]
+		fm, body := "", page
+		if strings.HasPrefix(page, "---\n") {
+			if i := strings.Index(page[4:], "\n---\n"); i >= 0 {
+				fm, body = page[:4+i+5], page[4+i+5:]
+			}
+		}
+		hook := `<p>{{ who | cancelnow }}</p>`
+		if c.K%2 == 0 {
+			body = hook + body
+		} else if j := strings.Index(body, "</body>"); j >= 0 {
+			body = body[:j] + hook + body[j:]
+		} else {
+			body += hook
+		}
+		q.Files["page.vuego"] = fm + body
+		w := &fw.Capture{}
+		opts := []vuego.LoadOption{vuego.WithFuncs(cat.Funcs()), vuego.WithFuncs(vuego.FuncMap{"cancelnow": func(v any) any { cancel(); return v }})}
+		for _, o := range q.Opts {
+			if o == "components" {
+				opts = append(opts, vuego.WithComponents())
+			}
+		}
+		err := q.RunOn(cctx, vuego.NewFS(q.FS(), opts...), c.Entry, w)
+		if err != nil && len(w.Got) != 0 {
+			return fmt.Errorf("%s/%s: context cancelled during evaluation: render returned %v after writing %d bytes", c.Prog, c.Entry, err, len(w.Got))
+		}
+		if err == nil {
+			return complete(q, string(w.Got))
+		}
+		return nil
 	}
 	return fmt.Errorf("unknown mode %q", c.Mode)
 }
@@ -234,15 +314,26 @@ func TestProp(t *testing.T) {
 			for k := 0; k <= ref.Len(); k++ {
 				each(Case{Prog: p.Name, Entry: e, Mode: "failat", K: k})
 			}
+			// transient failures: every single write call failing once; size limits
+			cw := &fw.Capture{}
+			_ = p.Run(context.Background(), e, cw)
+			for k := 0; k < cw.Writes; k++ {
+				each(Case{Prog: p.Name, Entry: e, Mode: "failnth", K: k})
+			}
+			for _, max := range []int{0, 1, 2, 3, 4, 6, 8, 12, 16, 24, 32, 48, 64, 128} {
+				each(Case{Prog: p.Name, Entry: e, Mode: "refuse", K: max})
+			}
+			each(Case{Prog: p.Name, Entry: e, Mode: "cancelmid", K: 0})
+			each(Case{Prog: p.Name, Entry: e, Mode: "cancelmid", K: 1})
 		}
 	}
 	if ok {
-		rec.Exhaustive(fmt.Sprintf("every catalogue program x Template entry point x {reference, cancelled context, injected failure in every file at start/end, writer failing at every byte offset 0..len} (%d cases)", i))
+		rec.Exhaustive(fmt.Sprintf("every catalogue program x Template entry point x {reference, cancelled context, context cancelled during evaluation, injected failure in every file at start/end, writer failing at every byte offset 0..len, every single write call failing once, size-limited writers} (%d cases)", i))
 	}
 	// random combination (keeps the rapid path and shrinking available for seeded changes)
 	names := cat.Names()
 	run.Rapid(t, rec, "random", func(t *rapid.T) Case {
-		c := Case{Prog: rapid.SampledFrom(names).Draw(t, "prog"), Entry: rapid.SampledFrom(cat.Entries).Draw(t, "entry"), Mode: rapid.SampledFrom([]string{"ref", "failat", "cancel"}).Draw(t, "mode")}
+		c := Case{Prog: rapid.SampledFrom(names).Draw(t, "prog"), Entry: rapid.SampledFrom(cat.Entries).Draw(t, "entry"), Mode: rapid.SampledFrom([]string{"ref", "failat", "cancel", "failnth", "refuse", "cancelmid"}).Draw(t, "mode")}
 		c.K = rapid.IntRange(0, 700).Draw(t, "k")
 		return c
 	}, classify, check)
